@@ -494,7 +494,7 @@ func (vc *VC) newObject(st *State, prefix string, dyn types.Type, kinds []Kind) 
 		seen[k] = true
 		key := vc.heapKey(k)
 		h := vc.get(st, key)
-		vc.set(st, key, tSto(h, r, fmt.Sprintf("((as const (Array Int %s)) %s)", k.Sort(), zeroTerm(k))))
+		vc.set(st, key, tSto(h, r, zeroArr(k)))
 	}
 	return r
 }
@@ -686,4 +686,20 @@ func (vc *VC) elemOff(off, idx Term, es int) Term {
 		vc.decls = append(vc.decls, fmt.Sprintf("(assert (forall ((o!q Int) (i!q Int)) (! (= (%s o!q i!q) (+ o!q (* %d i!q))) :pattern ((%s o!q i!q)))))", name, es, name))
 	}
 	return sx(name, off, idx)
+}
+
+func zeroArr(k Kind) Term {
+	switch k {
+	case KI:
+		return "((as const (Array Int Int)) 0)"
+	case KB:
+		return "((as const (Array Int Bool)) false)"
+	case KS:
+		return "zarrS"
+	case KF:
+		return "zarrF"
+	case KT:
+		return "zarrT"
+	}
+	panic("zeroArr")
 }
